@@ -6,6 +6,7 @@ import hashlib
 import ecdsa
 
 import spec
+import common
 
 
 def fast_scrypt(password, salt):
@@ -24,20 +25,27 @@ class Env:
         self.interval = interval
         self.saved = []
 
+    def _everywhere(self, name, val):
+        """set a parameter wherever the package looks it up: in the module that defines it and in every module that
+        imported the name (`from .params import X`) -- so that `X`, `params.X` and `consensus.X` all see the test value"""
+        import sys
+        for mn, mod in list(sys.modules.items()):
+            if (mn == 'skepticoin' or mn.startswith('skepticoin.')) and mod is not None and name in getattr(mod, '__dict__', {}):
+                self.saved.append((mod, name, mod.__dict__[name]))
+                setattr(mod, name, val)
+
     def __enter__(self):
-        from skepticoin import consensus as C
+        from skepticoin import consensus as C   # noqa (makes sure the package's modules are loaded)
+        from skepticoin import params, cheating, hash as H   # noqa
         for name, val in (('MAX_KNOWN_HASH_HEIGHT', self.hz), ('KNOWN_HASHES', self.known),
                           ('BLOCKS_BETWEEN_TARGET_READJUSTMENT', self.period),
                           ('DESIRED_TARGET_READJUSTMENT_TIMESPAN', self.span)):
-            self.saved.append((C, name, getattr(C, name)))
-            setattr(C, name, val)
+            self._everywhere(name, val)
         if self.interval is not None:
-            self.saved.append((C, 'SUBSIDY_HALVING_INTERVAL', C.SUBSIDY_HALVING_INTERVAL))
-            C.SUBSIDY_HALVING_INTERVAL = self.interval
-        self.scrypt = C.scrypt
+            self._everywhere('SUBSIDY_HALVING_INTERVAL', self.interval)
+        self.scrypt = H.scrypt
         if self.fast:
-            self.saved.append((C, 'scrypt', C.scrypt))
-            C.scrypt = fast_scrypt
+            self._everywhere('scrypt', fast_scrypt)
             self.scrypt = fast_scrypt
         return self
 
@@ -53,8 +61,8 @@ class Env:
         from skepticoin import consensus as C
         from binascii import unhexlify
         return [self.hz + 1, [[h, unhexlify(v)] for h, v in sorted(self.known.items())], self.period, self.span,
-                C.MAX_BLOCK_SIZE, C.MAX_COINBASE_RANDOM_DATA_SIZE, C.MAX_FUTURE_BLOCK_TIME, C.MAX_SASHIMI,
-                C.SUBSIDY_HALVING_INTERVAL, C.INITIAL_SUBSIDY, C.CHAIN_SAMPLE_COUNT, C.CHAIN_SAMPLE_SIZE]
+                common.param('MAX_BLOCK_SIZE'), common.param('MAX_COINBASE_RANDOM_DATA_SIZE'), common.param('MAX_FUTURE_BLOCK_TIME'), common.param('MAX_SASHIMI'),
+                common.param('SUBSIDY_HALVING_INTERVAL'), common.param('INITIAL_SUBSIDY'), common.param('CHAIN_SAMPLE_COUNT'), common.param('CHAIN_SAMPLE_SIZE')]
 
 
 MALFORMED_PK = b'\x01' * 64      # 64 bytes that are not a point on secp256k1
